@@ -13,7 +13,7 @@ P3 == {"a", "b", "g"}
 X3 == {"r", "y", "z"}
 Cls3 == [r |-> "ok", y |-> "ok", z |-> "bad"]
 Holds1 == [a |-> {"t1"}, b |-> {"t2"}, g |-> {}]
-Script1 == [a |-> <<XM("r"), XM("y")>>, b |-> <<XM("y"), XM("r"), GM("y")>>, g |-> <<XM("z"), XM("y")>>]
+Script1 == [a |-> <<XM("r"), XM("y")>>, b |-> <<IM("y"), XM("r"), GM("y")>>, g |-> <<XM("z"), XM("y")>>]
 
 \* U2: a holds everything but never answers (it pushes one transaction nobody asked for), b holds everything and answers;
 \*     a payload of another category
@@ -28,7 +28,7 @@ HoldsA1 == [a |-> {"t1", "t2"}, b |-> {"t2"}]
 
 \* U3: a named transaction exists only in a copy that fails verification
 Bad2 == {"t2"}
-Script3 == [a |-> <<XM("r")>>, b |-> <<XM("r"), TM("t2")>>]
+Script3 == [a |-> <<IM("r")>>, b |-> <<XM("r"), TM("t2")>>]
 
 \* U4: three named transactions, two per getdata message; the transactions arrive pushed and as answers, duplicated
 Holds3 == [a |-> {"t1", "t3"}, b |-> {"t2", "t3"}]
